@@ -19,11 +19,11 @@ suite=pass
 for m in . v2 cmd; do (cd $m && go test -vet=off -count=1 ./... > /tmp/seedsuite-$ID-$(echo $m|tr './' '__').log 2>&1) || suite="FAIL($m)"; done
 for d in $DEMOS; do mkdir -p $(dirname $d); cp -r /tmp/seedaside-$ID/$d $d; done
 # 2. demo with and without
-first=$(echo "$DEMOS" | head -1)
+first=$(echo "$DEMOS" | grep "_test\.go$" | head -1); [ -n "$first" ] || first=$(echo "$DEMOS" | head -1)
 ddir=$(dirname $first)
 mod=v2; case $first in cmd/*) mod=cmd;; v2/*) mod=v2;; *) mod=.;; esac
 rel=${ddir#$mod/}; [ "$mod" = "." ] && rel=$ddir; [ "$rel" = "$mod" ] && rel=.
-run_demo() { (cd $mod && go test -vet=off -count=1 -run 'TestSeedDemo|SeedDemo' ./$rel/ 2>&1 | tail -3); }
+run_demo() { (cd $mod && go test -vet=off -count=1 -run 'Seed' ./$rel/ 2>&1 | tail -3); }
 with=$(run_demo); echo "$with" | grep -q "^ok" && w=PASS || w=FAIL
 git apply -R $OUT/patch.diff; without=$(run_demo); echo "$without" | grep -q "^ok" && wo=PASS || wo=FAIL; git apply $OUT/patch.diff
 for d in $DEMOS; do mkdir -p $OUT/demo/$(dirname $d); cp -r $d $OUT/demo/$d; done
